@@ -45,10 +45,45 @@ def run(chk, repo):
     inprocess(chk, repo)
     creation(chk, repo)
     counter_use(chk, repo)
+    descriptors(chk, repo)
     from . import c23
     chk.doc("R15.9", "the shared counter file lives as long as any "
                      "participant (shared with C23)")
     c23.shared_files(chk, repo, "R15.9")
+
+
+def descriptors(chk, repo):
+    """R15.10: POSIX record locks belong to the process and are ALL dropped
+    when the process closes ANY descriptor of the file.  LockFile objects
+    are pickled around, so a process can hold several for one file: the
+    descriptor may only be closed by an explicit close(), never as a side
+    effect of an object going away."""
+    chk.doc("R15.10", "lock file descriptors are closed explicitly only")
+    bad = []
+    n = 0
+    for ci in repo.classes.values():
+        if ci.module.name != "ebpfcat.lock":
+            continue
+        for name, f in ci.methods.items():
+            if not isinstance(f, FUNC):
+                continue
+            n += 1
+            closes = [c for c in calls_in(f) if dotted(c.func) == "os.close"
+                      or (isinstance(c.func, ast.Attribute)
+                          and c.func.attr == "close"
+                          and unparse(c.func.value) == "self")]
+            if closes and name in ("__del__", "__exit__", "__aexit__",
+                                   "__setstate__", "__getstate__",
+                                   "__reduce__"):
+                bad.append((closes[0], f"{ci.qualname}.{name}"))
+    chk.floor("R15.10", "methods of the lock classes", n, 8)
+    chk.ob("R15.10", "ebpfcat.lock", "no lock class closes its descriptor "
+           "implicitly", not bad, bad[0][0] if bad else None,
+           (f"{bad[0][1]} closes the descriptor: when one of several "
+            f"LockFile objects of a process is collected, the byte-range "
+            f"locks held through the others vanish and another process "
+            f"enters a mailbox exchange that is still running") if bad else
+           f"{n} methods: close() and remove() only")
 
 
 def counter_use(chk, repo):
